@@ -97,6 +97,18 @@ func (c *ColumnNameDecorator) GetColumnInfo() (string, string, string) {
 
 // Restore implement ast.Node
 func (c *ColumnNameDecorator) Restore(ctx *format.RestoreCtx) error {
+	if err := c.restoreQualifiers(ctx); err != nil {
+		return err
+	}
+
+	// 列名不需要改写
+	ctx.WriteName(c.origin.Name.O)
+
+	return nil
+}
+
+// restoreQualifiers writes the database and table qualifiers of the name for the current table index
+func (c *ColumnNameDecorator) restoreQualifiers(ctx *format.RestoreCtx) error {
 	tableIndex, err := c.result.GetCurrentTableIndex()
 	if err != nil {
 		return err
@@ -144,9 +156,6 @@ func (c *ColumnNameDecorator) Restore(ctx *format.RestoreCtx) error {
 			}
 		}
 	}
-
-	// 列名不需要改写
-	ctx.WriteName(c.origin.Name.O)
 
 	return nil
 }
